@@ -735,6 +735,13 @@ class C05(PropertyCheck):
         "histories: in-place edits go through public API only (Array2D.__setitem__ on dataset.data, plain attributes "
         "of SettingsInversion, re-assignment of LinearObj.regularization); the noise map / PSF of an existing "
         "Imaging are not edited in place (its cached convolver / w_tilde legitimately depend on them)",
+        "round 6 histories: a shared Preloads object carries only curvature_matrix / regularization_matrix / "
+        "operated_mapping_matrix, computed by a fresh world without preloads and kept valid by the generator (only "
+        "data, solver options, formalism and — when H is not preloaded — the coefficient change); the caller "
+        "overwrites only arrays the inversion hands out as its own (never the preloaded arrays it passed in); "
+        "configuration values are edited through conf.instance['general']['inversion'] and restored afterwards",
+        "decades streams keep D and s at least 2^8 above the solver's documented absolute tolerance eps*n (part of "
+        "the model) and leave the degenerate (D4c) right-hand sides to the older streams",
     ]
     search_budget_s = {"quick": 40, "thorough": 300}
     modelled_functions = [
@@ -824,7 +831,11 @@ class C05(PropertyCheck):
         yield from self._tie_cases(rng, quick)
         # 7. round 4: histories on reused objects (each step judged against a fresh object in that state)
         yield from self._hist_linear_cases(rng, 64 if quick else 640)
-        yield from self._hist_inversion_cases(rng, 14 if quick else 140)
+        yield from self._hist_inversion_cases(rng, 24 if quick else 156)
+        # 9. round 6 (R5-A / R5-E): decades streams — the solver on systems scaled by powers of two far from 1, and
+        #    real inversions whose data / noise (hence D and F+H) live many decades away from 1
+        yield from self._decade_solver_cases(rng, 30 if quick else 360)
+        yield from self._decade_inversion_cases(rng, 8 if quick else 80)
         # 8. round 4: moderate-size oracle-only systems (iteration-count / size-gated behaviour without a hint)
         yield from self._mid_cases(rng, quick)
 
@@ -1703,15 +1714,16 @@ class C05(PropertyCheck):
             force_edge_image_pixels_to_zeros=case["force_edge_image"],
             image_pixels_source_zero=self._source_zero(case), **kw)
 
-    def _make_inversion(self, aa, case, ds, objs, settings):
+    def _make_inversion(self, aa, case, ds, objs, settings, preloads=None):
         via = case.get("via", "factory")
+        kw = {} if preloads is None else {"preloads": preloads}  # round 6: a Preloads object shared by several calls
         if via == "imaging_from":
             from autoarray.inversion.inversion import factory
 
-            return factory.inversion_imaging_from(dataset=ds, linear_obj_list=objs, settings=settings)
+            return factory.inversion_imaging_from(dataset=ds, linear_obj_list=objs, settings=settings, **kw)
         if via == "class" and not case["use_w_tilde"]:
-            return aa.InversionImagingMapping(dataset=ds, linear_obj_list=objs, settings=settings)
-        return aa.Inversion(dataset=ds, linear_obj_list=objs, settings=settings)
+            return aa.InversionImagingMapping(dataset=ds, linear_obj_list=objs, settings=settings, **kw)
+        return aa.Inversion(dataset=ds, linear_obj_list=objs, settings=settings, **kw)
 
     def _build_inversion(self, aa, case):
         ds, mask, over, grid = self._make_dataset(aa, case)
@@ -1806,7 +1818,19 @@ class C05(PropertyCheck):
         out = []
         if case["surface"] == "inversion":
             for st in case["steps"]:
-                out.append(None if st.get("fault") else st["case"])
+                if st.get("fault"):
+                    out.append(None)
+                    continue
+                vc = st["case"]
+                cfg = st.get("config")
+                if cfg:  # round 6 (R5-D): an unset option resolves to the configuration value in force AT THE CALL
+                    vc = dict(vc)
+                    for k in ("use_positive_only_solver", "positive_only_uses_p_initial"):
+                        if vc.get(k) is None and k in cfg:
+                            vc[k] = bool(cfg[k])
+                    if "check_reconstruction" in cfg:
+                        vc["check_reconstruction"] = bool(cfg["check_reconstruction"])
+                out.append(vc)
             return out
         slots = case["slots"]
         for st in case["steps"]:
@@ -1913,12 +1937,53 @@ class C05(PropertyCheck):
         """steps on REUSED objects (settings / dataset / linear objects carried from step to step and edited through
         their public, in-place API) observed; the system each step is judged against (aux) comes from a completely
         FRESH world built in the state the step describes"""
+        from autoconf import conf
+
+        cfg_inv = conf.instance["general"]["inversion"]
+        cfg_saved = {k: cfg_inv[k] for k in self.CONFIG_KEYS}
+        try:
+            return self._run_history_inversion_steps(aa, case, cfg_inv, cfg_saved)
+        finally:  # the configuration is restored, also on exceptions
+            for k, v in cfg_saved.items():
+                cfg_inv[k] = v
+
+    CONFIG_KEYS = ["use_positive_only_solver", "positive_only_uses_p_initial", "check_reconstruction",
+                   "no_regularization_add_to_curvature_diag_value"]
+    PRELOAD_FIELDS = ["curvature_matrix", "regularization_matrix", "operated_mapping_matrix"]
+
+    @staticmethod
+    def _scribble(inv):
+        """round 6 (R5-B): the caller overwrites, in place, every array the inversion handed out (they are the
+        caller's: nothing a later call uses may still live in them)"""
+        arrays = []
+        for name in ("reconstruction", "curvature_reg_matrix", "data_vector", "mapped_reconstructed_data",
+                     "mapped_reconstructed_image", "reconstruction_reduced"):
+            try:
+                arrays.append(getattr(inv, name))
+            except Exception:
+                pass
+        for name in ("reconstruction_dict", "mapped_reconstructed_data_dict", "mapped_reconstructed_image_dict"):
+            try:
+                arrays.extend(getattr(inv, name).values())
+            except Exception:
+                pass
+        for x in arrays:
+            a = x if isinstance(x, np.ndarray) else getattr(x, "_array", None)
+            if isinstance(a, np.ndarray) and a.flags.writeable and a.size and a.dtype.kind == "f":
+                a[...] = np.nan
+
+    def _run_history_inversion_steps(self, aa, case, cfg_inv, cfg_saved):
         prev = None
         steps = []
         for st in case["steps"]:
             sc = st["case"]
             share = set(st.get("share", []))
             try:
+                # round 6 (R5-D): the configuration values in force for THIS step (everything else: pinned default)
+                for k, v in cfg_saved.items():
+                    cfg_inv[k] = v
+                for k, v in (st.get("config") or {}).items():
+                    cfg_inv[k] = float(F(v)) if isinstance(v, str) else v
                 geom_same = prev is not None and self._geometry(prev["case"]) == self._geometry(sc)
                 # --- dataset: reused and edited in place through Array2D.__setitem__ where only the data differ
                 if prev is not None and "dataset" in share and geom_same and not sc.get("ints"):
@@ -1960,21 +2025,42 @@ class C05(PropertyCheck):
                     settings.image_pixels_source_zero = self._source_zero(sc)
                 else:
                     settings = self._make_settings(aa, sc)
+                # --- round 6: ONE Preloads object carried from step to step (the generator keeps the preloaded
+                #     quantities valid: they are computed once, by a fresh world without preloads, in the state of
+                #     the first step that uses them); the caller keeps its own copies and checks them at the end
+                fields = st.get("preload") or []
+                preloads = None
+                if fields:
+                    if prev is not None and "preloads" in share and prev.get("preload_fields") == fields:
+                        preloads, pcopy = prev["preloads"], prev["preload_copy"]
+                    else:
+                        src, _ = self._build_inversion(aa, sc)
+                        vals = {f: np.array(getattr(src, f), dtype=float) for f in fields}
+                        pcopy = {f: v.copy() for f, v in vals.items()}
+                        how = st.get("preload_as", "c")  # R5-C: equal-valued Fortran-ordered / read-only preloads
+                        if how == "fortran":
+                            vals = {f: np.asfortranarray(v) for f, v in vals.items()}
+                        elif how == "readonly":
+                            for v in vals.values():
+                                v.flags.writeable = False
+                        preloads = aa.Preloads(**vals)
                 prev = {"case": sc, "ds": ds, "mask": mask, "over": over, "grid": grid, "settings": settings,
-                        "objs": {**(prev["objs"] if prev else {}), **table}}
+                        "objs": {**(prev["objs"] if prev else {}), **table},
+                        "preloads": preloads, "preload_fields": fields if preloads is not None else None,
+                        "preload_copy": pcopy if preloads is not None else None}
                 if st.get("fault"):  # a linear object with one row too few: the build raises in the middle
                     n_un = sc["mask"].count("0")
                     bad = aa.m.MockLinearObjFuncList(parameters=1, grid=aa.Grid2D.from_mask(mask=mask),
                                                      mapping_matrix=np.ones((max(1, n_un - 1), 1)))
                     try:
-                        inv = self._make_inversion(aa, sc, ds, objs + [bad], settings)
+                        inv = self._make_inversion(aa, sc, ds, objs + [bad], settings, preloads=preloads)
                         inv.reconstruction
                         inv.mapped_reconstructed_data
                         steps.append({"fault": "returned"})
                     except Exception as e:
                         steps.append({"fault": type(e).__name__})
                     continue
-                inv = self._make_inversion(aa, sc, ds, objs, settings)
+                inv = self._make_inversion(aa, sc, ds, objs, settings, preloads=preloads)
                 for name in st.get("decoys", []):  # unrelated derived quantities read FIRST
                     try:
                         getattr(inv, name)
@@ -1983,6 +2069,13 @@ class C05(PropertyCheck):
                 fresh_inv, fresh_objs = self._build_inversion(aa, sc)
                 obs = {"aux": self._aux(fresh_inv, fresh_objs, sc)}
                 steps.append(self._observe(inv, objs, obs, order=st.get("order")))
+                if st.get("scribble"):
+                    self._scribble(inv)
+                    self._scribble(fresh_inv)
+                if preloads is not None:  # the preloaded arrays are the caller's: bit-for-bit what was handed in
+                    drift = [f for f in fields if not np.array_equal(getattr(preloads, f), prev["preload_copy"][f])]
+                    if drift:
+                        steps[-1]["preloads_modified"] = drift
             except Exception as e:
                 steps.append({"err": type(e).__name__, "msg": str(e)[:200], "unexpected": True})
         return {"steps": steps}
@@ -2099,24 +2192,57 @@ class C05(PropertyCheck):
                 "matrix": qmat([[gen.dyadic(rng, 0, 4, 2) for _ in range(k)] for _ in range(n_un)])}
 
     def _hist_inversion_cases(self, rng, count):
-        types = ["flags", "data_edit", "position", "fault", "reg", "two_objs", "source_zero"]
-        ALL = ["settings", "dataset", "objs"]
+        types = ["flags", "data_edit", "position", "fault", "reg", "two_objs", "source_zero",
+                 "preload_curv", "config", "preload_mixed", "config_args", "ownership"]  # round 6: the last five
+        ALL = ["settings", "dataset", "objs", "preloads"]
         for k in range(count):
             htype = types[k % len(types)]
             layout = rng.choice(["mapper", "mapper", "mapper+func", "func+mapper"]) if htype != "fault" else \
                 rng.choice(["mapper", "func", "mapper+func"])
+            if htype == "preload_curv" and k < len(types):
+                layout = "mapper"  # one regularization: the in-place `F += H` branch of curvature_reg_matrix
+            if htype.startswith("config"):
+                layout = rng.choice(["mapper+func", "func+mapper"])  # the configured diagonal value acts on the func
+            if htype == "preload_mixed" and k < len(types):
+                layout = rng.choice(["mapper+func", "func+mapper"])  # two regularizations: the `np.add` branch
             base, n_un = self._inv_base(rng, layout, positive=(k < len(types) or rng.random() < 0.8))
+            if htype == "preload_mixed" and k < len(types):
+                for o in base["objs"]:
+                    if o["type"] == "func":
+                        o["regularized"] = True
             if k < len(types):  # the first history of every type runs where the forced zeros / warm start act
                 base["force_edge_pixels_to_zeros"] = True
                 if htype in ("source_zero", "position") and sum(o["type"] == "mapper" for o in base["objs"]) != 1:
                     base["objs"] = [self._inv_obj(rng, "mapper", "m0", n_un)]
 
-            def st(c, label, share=ALL, fault=None):
+            def st(c, label, share=ALL, fault=None, preload=None, config=None, scribble=None):
                 order = self.READS[:]
                 if rng.random() < 0.7:
                     rng.shuffle(order)
-                return {"case": c, "label": label, "share": list(share), "fault": fault,
-                        "decoys": rng.sample(self.DECOYS, rng.randint(0, 6)), "order": order}
+                out = {"case": c, "label": label, "share": list(share), "fault": fault,
+                       "decoys": rng.sample(self.DECOYS, rng.randint(0, 6)), "order": order,
+                       # round 6 (R5-B): after the observation the caller overwrites every array it was handed
+                       "scribble": (rng.random() < 0.5) if scribble is None else scribble}
+                if preload:
+                    out["preload"] = list(preload)
+                if config is not None:
+                    out["config"] = dict(config)
+                return out
+
+            def edited(c, cnt=3):
+                """copy of world c with a few data values changed (F, H and the blurred mapping matrices are not)"""
+                c = dict(c)
+                d = [r[:] for r in c["data"]]
+                for (y, x) in rng.sample(unmasked, min(cnt, len(unmasked))):
+                    d[y][x] = q(gen.dyadic(rng, -6, 6, 3))
+                c["data"] = d
+                return c
+
+            def recoef(c):
+                c = dict(c)
+                c["objs"] = [dict(o, coefficient=q(F(o["coefficient"]) * rng.choice([2, F(1, 2), 4])))
+                             if o["type"] == "mapper" else o for o in c["objs"]]
+                return c
 
             unmasked = [(i // base["W"], i % base["W"]) for i, ch in enumerate(base["mask"]) if ch == "0"]
             if htype == "flags":
@@ -2163,6 +2289,79 @@ class C05(PropertyCheck):
                 c1 = dict(base)
                 c1["objs"] = [self._inv_obj(rng, "mapper", "mz", n_un)] + [o for o in base["objs"] if o["type"] == "func"]
                 steps = [st(base, "world A"), st(c1, "same dataset and settings, another mesh"), st(base, "world A again")]
+            elif htype in ("preload_curv", "preload_mixed"):
+                # round 6 (R5-B, C05-r6m2): ONE Preloads object handed to consecutive inversions, as a model-fit does
+                # with a fixed mapper: only the data, the solver settings and (where H is not preloaded) the
+                # regularization coefficient change between the calls, so the preloaded quantities stay valid
+                first = k < len(types)
+                if htype == "preload_curv":
+                    fields = ["curvature_matrix"]
+                    base["use_w_tilde"] = True if first else rng.random() < 0.6
+                else:
+                    fields = sorted(rng.sample(self.PRELOAD_FIELDS, rng.randint(1, 3)))
+                    if first:
+                        fields = sorted(set(fields) | {"regularization_matrix"})
+                worlds = [base]
+                for i in range(3):
+                    c = edited(worlds[-1]) if rng.random() < 0.7 else dict(worlds[-1])
+                    if "regularization_matrix" not in fields and rng.random() < 0.4:
+                        c = recoef(c)
+                    if rng.random() < 0.5:
+                        c["use_positive_only_solver"] = not c["use_positive_only_solver"]
+                    if rng.random() < 0.3:
+                        c["positive_only_uses_p_initial"] = not c["positive_only_uses_p_initial"]
+                    if not (first and htype == "preload_curv") and rng.random() < 0.3:
+                        c["use_w_tilde"] = not c["use_w_tilde"]
+                    if first and htype == "preload_curv":  # both formalisms twice in a row on the shared object
+                        c["use_w_tilde"] = i == 0
+                    worlds.append(c)
+                steps = [st(c, ("world A" if i == 0 else "same objects, data / solver settings edited") +
+                            f", shared Preloads({', '.join(fields)})", preload=fields) for i, c in enumerate(worlds)]
+                how = "c" if first else rng.choice(["c", "fortran", "readonly"])
+                for t in steps:
+                    t["preload_as"] = how
+                    t["label"] += {"c": "", "fortran": " [Fortran-ordered]", "readonly": " [read-only arrays]"}[how]
+            elif htype == "ownership":
+                # round 6 (R5-B): observe -> overwrite everything that was handed out -> the same world again, once on
+                # the same objects and once rebuilt from fresh equal inputs -> observe; then the other solver, twice
+                flip = dict(base)
+                flip["use_positive_only_solver"] = not base["use_positive_only_solver"]
+                steps = [st(base, "world A", scribble=True),
+                         st(base, "world A again on the same objects, after the returned arrays were overwritten",
+                            scribble=True),
+                         st(base, "world A rebuilt from fresh equal inputs", share=[], scribble=True),
+                         st(flip, "world A, other solver", scribble=True),
+                         st(flip, "world A, other solver, again after the returned arrays were overwritten",
+                            share=rng.choice([ALL, []]), scribble=True)]
+            elif htype in ("config", "config_args"):
+                # round 6 (R5-D): the configuration values the anchored code reads, flipped BETWEEN calls on reused
+                # objects; options left unset follow the value in force at call time, explicit ones do not move
+                for o in base["objs"]:
+                    if o["type"] == "func":
+                        o["regularized"] = False
+                unset = dict(base)
+                unset.update({"use_positive_only_solver": None, "positive_only_uses_p_initial": None})
+                dv = lambda: q(rng.choice([F(1, 16), F(1, 2), F(1), F(1, 1024)]))
+                cfgs = [{}, {"use_positive_only_solver": False, "check_reconstruction": rng.random() < 0.5},
+                        {"positive_only_uses_p_initial": False, "no_regularization_add_to_curvature_diag_value": dv()},
+                        {"use_positive_only_solver": False, "positive_only_uses_p_initial": False,
+                         "no_regularization_add_to_curvature_diag_value": dv()}, {}]
+                if htype == "config":
+                    mid = cfgs[1:4]
+                    rng.shuffle(mid)
+                    steps = [st(unset if i != 2 else edited(unset), f"options unset, configuration {cfg or 'default'}",
+                                config=cfg) for i, cfg in enumerate([{}] + mid + [{}])]
+                else:
+                    steps = []
+                    for i in range(4):
+                        cfg = rng.choice(cfgs[1:4])
+                        c = dict(unset if i % 2 == 0 else base)
+                        if i % 2:  # explicit arguments are the controls: the configuration must not move them
+                            c["use_positive_only_solver"] = rng.choice([True, False, 1, 0])
+                            c["positive_only_uses_p_initial"] = rng.choice([True, False])
+                            c["diag_value"] = dv() if rng.random() < 0.5 else None
+                        steps.append(st(c, ("options unset" if i % 2 == 0 else "explicit options") +
+                                        f", configuration {cfg}", config=cfg))
             else:  # image-pixel source-zero list on the shared settings, edited between the worlds
                 n_m = sum(1 for o in base["objs"] if o["type"] == "mapper")
                 c0, c1, c2 = dict(base), dict(base), dict(base)
@@ -2175,6 +2374,73 @@ class C05(PropertyCheck):
                 steps = [st(c0, "world A"), st(c1, "source-zero list set on the shared settings"),
                          st(c2, "another list"), st(c0, "list removed")]
             yield {"tag": f"hist_inversion_{htype}", "kind": "history", "surface": "inversion", "steps": steps}
+
+    # -- round 6: decades streams
+    EXTREME = [(150, 150), (-150, -20), (150, 128), (-100, 0), (100, 100), (300, 300), (-300, -40)]
+
+    def _decade_solver_cases(self, rng, count):
+        """A·2^ka, b·2^kb (powers of two keep the dyadic inputs exact).  The solver's documented absolute tolerance
+        eps·n on the gradient and on the passive entries is part of the model; the stream stays where it is far
+        below both scales (kb >= -40, kb - ka >= -40: eps·n is about 2^-48), so nothing here sits in its band,
+        while D and s reach below the 1e-8 / 1e-5 defaults of np.allclose / np.isclose."""
+        for i in range(count):
+            n = rng.randint(2, 7)
+            A, akind = spd_dyadic(rng, n)
+            mode = rng.choice(["planted", "noise", "noise", "negative"])
+            b = rhs_for(rng, A, mode)
+            if i < len(self.EXTREME):
+                ka, kb = self.EXTREME[i]
+                band = "extreme"
+            else:
+                ka = rng.randint(-45, 45)
+                lo = max(-40, ka - 40)
+                kb = rng.randint(lo, lo + 6) if i % 3 == 0 else rng.randint(lo, 60)
+                band = "wide"
+            A = [[x * F(2) ** ka for x in r] for r in A]
+            b = [x * F(2) ** kb for x in b]
+            if rng.random() < 0.3:  # one nearly-equal ingredient: right-hand side entries 2^-30 (relative) apart
+                b = [b[0] * (1 + F(rng.randint(-4, 4), 2 ** 30)) for _ in b]
+                band += "_near_equal_b"
+            for pm in ("none", "prod"):
+                yield self._solver_case(rng, A, b, pm, f"decade_solver_{band}_{pm}")
+            if rng.random() < 0.5:
+                yield {"tag": f"decade_recon_{band}_posonly", "kind": "recon", "fn": "posonly", "A": qmat(A),
+                       "b": qlist(b), "p_initial": rng.choice([True, False])}
+
+    def _decade_inversion_cases(self, rng, count):
+        """real inversions with the data scaled by 2^kd and the noise map by 2^kn (D ~ 2^(kd-2kn), F ~ 2^(-2kn)); the
+        regularization coefficient and the diagonal value follow the noise (2^-kn, 2^-2kn) so that F+H keeps its
+        shape.  Positive-only solver: kd >= -40 and kd - 2kn >= -40 (see _decade_solver_cases)."""
+        for i in range(count):
+            layout = ["mapper", "mapper+func", "func+mapper"][i % 3]
+            base, n_un = self._inv_base(rng, layout, positive=(i % 2 == 0))
+            kn = rng.randint(-45, 45) if i % 4 != 3 else 0
+            if base["use_positive_only_solver"]:
+                lo = max(-40, 2 * kn - 40)
+                kd = rng.randint(lo, lo + 6) if i % 4 == 0 else rng.randint(lo, max(45, lo + 10))
+            else:
+                kd = rng.randint(-45, 45)
+            sd, sn = F(2) ** kd, F(2) ** kn
+            data = [[F(v) for v in r] for r in base["data"]]
+            variant = rng.choice(["plain", "plain", "near_uniform", "offset"])
+            if variant == "near_uniform":  # nearly-uniform data: 2^-30 relative apart
+                v0 = gen.pos_dyadic(rng, 1, 4, 2) * rng.choice([1, -1])
+                data = [[v0 * (1 + F(rng.randint(-4, 4), 2 ** 30)) for _ in r] for r in data]
+            elif variant == "offset":  # a large common level under small structure
+                data = [[v + 2 ** 20 for v in r] for r in data]
+            base["data"] = qmat([[v * sd for v in r] for r in data])
+            base["noise"] = qmat([[F(v) * sn for v in r] for r in base["noise"]])
+            for o in base["objs"]:
+                if o["type"] == "mapper":
+                    o["coefficient"] = q(F(o["coefficient"]) / sn)
+                else:
+                    o["regularized"] = False
+            base["diag_value"] = q(F(1, 1024) / (sn * sn))
+            for wt in (True, False):
+                c = dict(base)
+                c.update({"use_w_tilde": wt, "tag": f"decade_inv_{layout}_{variant}_pos"
+                                                    f"{int(bool(base['use_positive_only_solver']))}_wt{int(wt)}"})
+                yield c
 
     def _tie_cases(self, rng, quick):
         """exact ratio ties of fix_constraint_cholesky and degenerate steps of the active-set loop (round 4, r4m2):
@@ -2346,6 +2612,7 @@ class C05(PropertyCheck):
                  "positive_only_uses_p_initial": case["positive_only_uses_p_initial"],
                  "force_edge_pixels_to_zeros": case["force_edge_pixels_to_zeros"],
                  "force_edge_image_pixels_to_zeros": case["force_edge_image"],
+                 "check_reconstruction": bool(case.get("check_reconstruction", True)),
                  "edge": aux["edge"], "zero": aux["zero"], "mapper_ranges": aux["ranges"]}]
         if "reconstruction" in impl_obs:
             reqs.append({"op": "c05.mapped_data", "Bs": aux["Bs"], "s": impl_obs["reconstruction"],
@@ -2618,6 +2885,9 @@ class C05(PropertyCheck):
                 label = case["steps"][i].get("label", "")
                 if so.get("unexpected"):
                     return False, f"history step {i} ({label}): unexpected {so['err']}: {so.get('msg', '')}"
+                if so.get("preloads_modified"):
+                    return False, (f"history step {i} ({label}): the caller's preloaded arrays "
+                                   f"{so['preloads_modified']} were modified in place by the inversion")
                 try:
                     ok, det = self.oracle(vc, so)
                 except Skip:
